@@ -408,7 +408,10 @@ def feeds(prog: Program, rep) -> None:
         a = [U(ff.resolved(si.stmt, z)) for z in calls[0].args]
         ok = len(a) == 3 and a[0].endswith(".x") and a[1].endswith(".y") and a[2].endswith(".bounds_dual") and a[0][:-2] == a[1][:-2] == a[2][: -len(".bounds_dual")]
         if q.endswith("Solver.solve") and "integration" not in q:
-            ok = ok and a[0].startswith("__loop__('iterate'")
+            # the variable carried by the main loop, whatever it is called (the loop may have come in with an expanded helper)
+            from .solveloop import solve_loop
+            carried = solve_loop(prog).names().get("iterate") or "iterate"
+            ok = ok and a[0].startswith(f"__loop__('{carried}'")
         else:
             ok = ok and a[0].startswith("Iterate(") and "__loop__('curr_z'" in a[0] and "perform_integration" not in a[0]
         rep.check(ok, "restore-feeds", fi.qualname, short(si.stmt), "restore_sol receives (x, y, bounds_dual) of one and the same final iterate, in that order", fi.loc(calls[0]))
